@@ -104,9 +104,17 @@ example : NoDynamic #[0x4b, 0x04, 0x00] := by
   subst this
   decide
 
-example : StdDeflate.inflate #[0x4b, 0x04, 0x00] = .ok (#[0x61], 3) := by decide +kernel
+/-- the theorem applied to that stream (the bytes `compress/flate` writes for "a") -/
+example (h : Flate.Spec.inflate #[0x4b, 0x04, 0x00] = some (#[0x61], 3)) :
+    StdDeflate.inflate #[0x4b, 0x04, 0x00] = .ok (#[0x61], 3) :=
+  wuffs_deflate_stored_fixed _ _ _ (by
+    intro p out hr _
+    have := reach_final_first #[0x4b, 0x04, 0x00] (by decide) p out hr
+    subst this
+    decide) h
 
-/-- non-vacuity of the stored case: final stored block "A" -/
+/-- non-vacuity of the stored case, both sides evaluated: a final stored block holding "A" -/
+example : Flate.Spec.inflate #[0x01, 0x01, 0x00, 0xfe, 0xff, 0x41] = some (#[0x41], 6) := by decide +kernel
 example : StdDeflate.inflate #[0x01, 0x01, 0x00, 0xfe, 0xff, 0x41] = .ok (#[0x41], 6) := by decide +kernel
 
 end WuffsVerif.Props.C07
